@@ -387,7 +387,7 @@ func TestC05(t *testing.T) {
 
 	// (1)+(3) repetition and read-only on the corpus (enumerated) ...
 	idx := 0
-	for _, objs := range [][]gen.Obj{co.Certs, co.CRLs, co.OCSPs} {
+	for _, objs := range [][]gen.Obj{co.Certs, co.CRLs, co.OCSPs, gen.ReasonCodeCRLs(), gen.LargeCRLs()} {
 		for _, o := range objs {
 			idx++
 			if !stats.Mine(idx) {
